@@ -180,10 +180,9 @@ def r3_join(ctx):
     return r
 
 
-def r4_emission(ctx):
-    r = Rule("C01.R4", "both generators emit every piece, in order",
-             "the generated view / Display impl is the concatenation of the collected pieces; a skipped kind, a reversed "
-             "iteration or an incomplete regrouping drops or reorders text", floor=20)
+def _r4_structural(ctx, r):
+    """syntax-level clauses on flatten / flatten_string / to_token_stream / as_string_impl (only when the evaluation of
+    rules/gentext.py is not available)"""
     ast = ctx.ast
     for name, delegates in (("flatten", {"Ranges": ["to_token_stream"], "Plurals": ["to_token_stream"], "Component": ["to_token_stream"], "Variable": ["var_to_view"]}),
                             ("flatten_string", {"Ranges": ["as_string_impl"], "Plurals": ["as_string_impl"], "Component": ["as_string_impl"], "Variable": ["var_fmt"]})):
@@ -232,6 +231,23 @@ def r4_emission(ctx):
             r.inst("macro parsed_value::" + name, "0 pieces -> empty, 1 -> itself, n -> all of them in order")
         else:
             r.viol("R4:parsed_value::" + name, "not all collected pieces are emitted: %s" % t[-200:], file=fn.file, line=fn.line)
+
+
+def r4_emission(ctx):
+    r = Rule("C01.R4", "both generators emit every piece, in order",
+             "the generated view / Display impl is the concatenation of the collected pieces; a skipped kind, a reversed "
+             "iteration or an incomplete regrouping drops or reorders text", floor=3)
+    ast = ctx.ast
+    # decided by evaluation (rules/gentext.py): both generators are interpreted on value trees of every kind and the code they
+    # produce is read back into the pieces it renders
+    from rules import gentext, absint as _absint
+    try:
+        evaluated = gentext.check(ctx, r)
+    except _absint.Unknown as u:
+        evaluated = False
+        r.viol("R4:undecided", "the generators cannot be interpreted on the current code (%s): the emission clause is NOT decided on this tree; the structural clauses reported alongside only cover part of it (fail closed)" % str(u)[:300], file=MV)
+    if not evaluated:
+        _r4_structural(ctx, r)
     fn = ast.fn(MU, "fit_in_leptos_tuple")
     if fn is None:
         r.missing("fit_in_leptos_tuple")
